@@ -125,6 +125,24 @@ def gen_cases(rng, tier):
                         "meta": {"name": name, "step": i, "fault": f, "benign": benign,
                                  "reached": reached, "n_first_events": n_first,
                                  "connect_failures": k, "followup_code": follow[2]}})
+    # every kind of request as the follow-up of a link failure (the repair must precede whatever comes next)
+    first_req = {"command": "getPubKey", "version": 5, "keyId": gen.PATHS[1]}
+    first1_req = {"command": "getPubKey", "version": 1, "keyId": gen.PATHS[1]}
+    for name, mode, req, dev in std:
+        if name.startswith("uiHeartbeat") or name == "version":
+            continue
+        answers, obs = commands.honest_transcript(mode, req, dev)
+        code = stack.reply_json(obs["replies"][-1])["errorcode"]
+        for f in ("W", "R"):
+            for k in (0, 1):
+                script = [(f,)] + commands.BRINGUP_SIGNER + list(answers)
+                cases.append({
+                    "mode": mode, "kind": "ledger",
+                    "lines": [gen.line(first_req if mode == "v5" else first1_req)] + [gen.line(req)] * (k + 1),
+                    "script": script, "connects": [False] * k + [True],
+                    "meta": {"name": "getPubKey-then-" + name, "step": 0, "fault": f, "benign": False,
+                             "reached": (lambda o: len([e for e in o["trace"] if e[0] == "A"]) > 0),
+                             "n_first_events": (lambda o: 1), "connect_failures": k, "followup_code": code}})
     return cases
 
 
